@@ -264,6 +264,7 @@ func run(c e2e.Case) (ev.Info, error) {
 	if err != nil {
 		return info, err
 	}
+	tr = tr.FirstRun()
 	var known *problem
 	for _, ex := range tr.Execs {
 		p, mixed, withJq := checkExec(ex, tr)
